@@ -139,6 +139,41 @@ theorem order_independent_observations (h1 h2 : List (Name × ClassDef))
   | none => rfl
   | some p => simp only [slotDefsOf_congr hdf p, hdflt]
 
+/-- order_independent_histories: order independence for histories WITH redefinitions. Two histories
+    in which every class has the same forms in the same relative order (its definition and all its
+    redefinitions), interleaved with the forms of the other classes in any way whatsoever — before or
+    after its superclasses, with superclasses missing for any stretch, with super- and
+    grand-superclasses redefined while a class waits — end in the same state and give the same
+    observations. (`Perm` is implied by the hypothesis; the generator of the history families
+    produces exactly such interleavings.) -/
+theorem order_independent_histories (h1 h2 : List (Name × ClassDef))
+    (hf : ∀ c, h1.filter (fun p => p.1 = c) = h2.filter (fun p => p.1 = c)) (c : Name) :
+    inhOf (run h1) c = inhOf (run h2) c ∧ defOf (run h1) c = defOf (run h2) c ∧
+    precOf (run h1) c = precOf (run h2) c ∧
+    (∀ k, typep (run h1) c k = typep (run h2) c k) ∧
+    (∀ ms, applicable (run h1) c ms = applicable (run h2) c ms) ∧
+    (∀ args, makeInstance (run h1) c args = makeInstance (run h2) c args) := by
+  have hd := lastDef_eq_of_filter h1 h2 hf
+  exact ⟨(order_independent_defs h1 h2 hd c).1, (order_independent_defs h1 h2 hd c).2,
+    order_independent_observations h1 h2 hd c⟩
+
+-- two interleavings of: class 0 defined then redefined, class 1 (a subclass of 0 and of the late class 2), class 2
+example : ∀ c, ([(1, (⟨[0, 2], [], []⟩ : ClassDef)), (0, ⟨[], [⟨0, [], some 1⟩], []⟩), (0, ⟨[], [⟨0, [], some 2⟩], []⟩), (2, ⟨[], [], []⟩)] :
+      List (Name × ClassDef)).filter (fun p => p.1 = c) =
+    ([(0, (⟨[], [⟨0, [], some 1⟩], []⟩ : ClassDef)), (2, ⟨[], [], []⟩), (0, ⟨[], [⟨0, [], some 2⟩], []⟩), (1, ⟨[0, 2], [], []⟩)] :
+      List (Name × ClassDef)).filter (fun p => p.1 = c) := by
+  intro c
+  by_cases h0 : c = 0
+  · subst h0; decide
+  · by_cases h1 : c = 1
+    · subst h1; decide
+    · by_cases h2 : c = 2
+      · subst h2; decide
+      · have e0 : ¬ 0 = c := fun e => h0 e.symm
+        have e1 : ¬ 1 = c := fun e => h1 e.symm
+        have e2 : ¬ 2 = c := fun e => h2 e.symm
+        simp [List.filter_cons, e0, e1, e2]
+
 /-! ## redefinition -/
 
 /-- redefine_propagates: after a class `a` is redefined (at the end of any history) the state is
@@ -298,6 +333,154 @@ example : precOf (run [(1, ⟨[0], [⟨1, [1], none⟩], []⟩), (0, ⟨[], [⟨
 theorem makeInstance_not_ready (s : State) (c : Name) (args : List (Name × Val))
     (hp : precOf s c = none) : makeInstance s c args = .error .notReady := by
   simp [makeInstance, hp]
+
+/-! ## which initforms are evaluated, and the order of :after methods (extension round 4) -/
+
+/-- initform_evaluated_iff: building an instance evaluates the initform `v` of slot `x` exactly when
+    `x` is an effective slot, no supplied (or default) initarg reaches it, and `v` is its most
+    specific initform — no other form is evaluated (no shadowed form, no form of a slot an initarg
+    filled). -/
+theorem initform_evaluated_iff (sds : List SlotDef) (args : List (Name × Val)) (x : Name) (v : Val) :
+    (x, v) ∈ evaluated sds args ↔
+      x ∈ slotNames sds ∧ (∀ a ∈ args, a.1 ∉ initargsFor sds x) ∧ initformFor sds x = some v := by
+  rw [evaluated_eq, List.mem_filterMap]
+  constructor
+  · rintro ⟨y, hy, hf⟩
+    cases hfind : args.find? (fun a => (initargsFor sds y).contains a.1) with
+    | some a => rw [hfind] at hf; simp at hf
+    | none =>
+      rw [hfind] at hf
+      cases hform : initformFor sds y with
+      | none => simp [hform] at hf
+      | some w =>
+        simp only [hform, Option.map_some, Option.some.injEq, Prod.mk.injEq] at hf
+        obtain ⟨rfl, rfl⟩ := hf
+        refine ⟨hy, ?_, hform⟩
+        intro a ha hmem
+        have := List.find?_eq_none.1 hfind a ha
+        simp [hmem] at this
+  · rintro ⟨hx, hnone, hform⟩
+    refine ⟨x, hx, ?_⟩
+    have : args.find? (fun a => (initargsFor sds x).contains a.1) = none := by
+      apply List.find?_eq_none.2
+      intro a ha
+      simpa using hnone a ha
+    rw [this, hform]
+    rfl
+
+/-- the value of an evaluated form is what the slot holds afterwards -/
+theorem evaluated_is_slot_value (sds : List SlotDef) (args : List (Name × Val)) (x : Name) (v : Val)
+    (h : (x, v) ∈ evaluated sds args) : getSlot (build sds args) x = some (some v) := by
+  obtain ⟨hx, hnone, hform⟩ := (initform_evaluated_iff sds args x v).1 h
+  rw [slot_value_spec, if_pos hx, slot_init_initform sds args x hnone, hform]
+
+/-- at most one initform per slot is evaluated -/
+theorem evaluated_one_per_slot (sds : List SlotDef) (args : List (Name × Val)) :
+    ((evaluated sds args).map Prod.fst).Nodup := by
+  rw [evaluated_eq]
+  apply List.Nodup.sublist _ (dedup_nodup (sds.map (·.name)))
+  apply filterMap_fst_sublist
+  intro x y hxy
+  cases hfind : args.find? (fun a => (initargsFor sds x).contains a.1) with
+  | some a => rw [hfind] at hxy; simp at hxy
+  | none =>
+    rw [hfind] at hxy
+    cases hform : initformFor sds x with
+    | none => simp [hform] at hxy
+    | some w =>
+      simp only [hform, Option.map_some, Option.some.injEq] at hxy
+      rw [← hxy]
+
+/-- initform_most_specific: the initform in force for slot `x` of a class with precedence list `p`
+    is the one written in the FIRST class of `p` whose own definition of `x` carries an initform
+    (`formOwner`): every class before it on the list has none. -/
+theorem initform_most_specific (s : State) (p : List Name) (x : Name) (v : Val)
+    (h : initformFor (slotDefsOf s p) x = some v) :
+    ∃ k pre post, formOwner s p x = some k ∧ p = pre ++ k :: post ∧
+      (∀ k' ∈ pre, initformFor (ownSlots s k') x = none) ∧
+      initformFor (ownSlots s k) x = some v := by
+  rw [initformFor_owner] at h
+  cases ho : formOwner s p x with
+  | none => simp [ho] at h
+  | some k =>
+    rw [ho] at h
+    obtain ⟨pre, post, hp, hpre, _⟩ := formOwner_some s x p k ho
+    exact ⟨k, pre, post, rfl, hp, hpre, h⟩
+
+/-- … and a slot has no initform in force exactly when no class of the precedence list gives one -/
+theorem initform_none_iff (s : State) (p : List Name) (x : Name) :
+    initformFor (slotDefsOf s p) x = none ↔ ∀ k ∈ p, initformFor (ownSlots s k) x = none := by
+  rw [initformFor_owner, ← formOwner_none]
+  cases ho : formOwner s p x with
+  | none => simp
+  | some k =>
+    obtain ⟨_, _, _, _, hk⟩ := formOwner_some s x p k ho
+    cases hv : initformFor (ownSlots s k) x with
+    | none => simp [hv] at hk
+    | some v => simp [hv]
+
+/-- what `(make-instance c …)` reports as evaluated: every reported form is owned by the first class
+    of c's precedence list that has an initform for the slot, carries the value the slot then holds,
+    and belongs to a slot no supplied or default initarg reached -/
+theorem evaluatedBy_sound (s : State) (c : Name) (args : List (Name × Val)) (p : List Name)
+    (l : List (Name × Name × Val)) (hp : precOf s c = some p) (h : evaluatedBy s c args = some l)
+    (k x : Name) (v : Val) (hm : (k, x, v) ∈ l) :
+    formOwner s p x = some k ∧ initformFor (ownSlots s k) x = some v ∧
+      (∀ a ∈ args ++ defaultsOf s c, a.1 ∉ initargsFor (slotDefsOf s p) x) ∧
+      makeInstance s c args = .ok (build (slotDefsOf s p) (args ++ defaultsOf s c)) ∧
+      getSlot (build (slotDefsOf s p) (args ++ defaultsOf s c)) x = some (some v) := by
+  unfold evaluatedBy at h
+  rw [hp] at h
+  simp only at h
+  by_cases hv : (args.all (fun a => validArg (slotDefsOf s p) a.1)) = true
+  · rw [if_pos hv] at h
+    cases h
+    obtain ⟨⟨x', v'⟩, hxv, hf⟩ := List.mem_filterMap.1 hm
+    cases ho : formOwner s p x' with
+    | none => simp [ho] at hf
+    | some k' =>
+      simp only [ho, Option.map_some, Option.some.injEq, Prod.mk.injEq] at hf
+      obtain ⟨rfl, rfl, rfl⟩ := hf
+      obtain ⟨_, hnone, hform⟩ := (initform_evaluated_iff _ _ _ _).1 hxv
+      obtain ⟨k2, _, _, ho2, _, _, hown⟩ := initform_most_specific s p x' v' hform
+      rw [ho] at ho2
+      cases ho2
+      refine ⟨ho, hown, hnone, ?_, evaluated_is_slot_value _ _ _ _ hxv⟩
+      simp [makeInstance, hp, hv]
+  · rw [if_neg hv] at h
+    cases h
+
+example : evaluatedBy (run [(1, ⟨[0], [⟨0, [1], none⟩, ⟨1, [], some 12⟩], []⟩),
+      (0, ⟨[], [⟨0, [0], some 1⟩, ⟨1, [], some 2⟩, ⟨2, [2], some 3⟩], []⟩)]) 1 [(2, 9)]
+    = some [(0, 0, 1), (1, 1, 12)] := by decide
+
+/-- :after methods run least specific first: the applicable methods in reverse precedence order;
+    the list is read off the same precedence list as everything else -/
+theorem after_order_spec (s : State) (c : Name) (ms p : List Name) (hp : precOf s c = some p) :
+    afterOrder s c ms = some ((p.filter (fun k => ms.contains k)).reverse) := by
+  simp [afterOrder, applicable, hp]
+
+/-- order independence of the initialisation protocol: histories that leave the same definitions in
+    force (any order of the forms, any number of redefinitions and forward references on the way)
+    evaluate the same initforms of the same owners and run the same :after methods in the same
+    order -/
+theorem order_independent_initialisation (h1 h2 : List (Name × ClassDef))
+    (hd : lastDef h1 = lastDef h2) (c : Name) :
+    (∀ args, evaluatedBy (run h1) c args = evaluatedBy (run h2) c args) ∧
+    (∀ ms, afterOrder (run h1) c ms = afterOrder (run h2) c ms) := by
+  obtain ⟨hp, _, happ, _⟩ := order_independent_observations h1 h2 hd c
+  have hdf : ∀ k, defOf (run h1) k = defOf (run h2) k :=
+    fun k => (order_independent_defs h1 h2 hd k).2
+  refine ⟨fun args => ?_, fun ms => by simp [afterOrder, happ ms]⟩
+  unfold evaluatedBy
+  rw [hp]
+  have hdflt : defaultsOf (run h1) c = defaultsOf (run h2) c := by simp [defaultsOf, hdf c]
+  cases precOf (run h2) c with
+  | none => rfl
+  | some p =>
+    simp only [slotDefsOf_congr hdf p, hdflt]
+    have : ∀ x, formOwner (run h1) p x = formOwner (run h2) p x := fun x => formOwner_congr hdf x p
+    simp only [this]
 
 /-! ## readers, writers, accessors act on their slot only -/
 
